@@ -25,7 +25,8 @@ def trees_pipeline(run, prop, observe=False):
     resz, _, _ = stage_groups(run, casesz, name="parse_zoo")
     stage_judge_trees(run, resz, prop, casesz, name="judge_zoo")
     if run.tier == "quick":
-        cases, g = stage_gen_trees(run, QUICK_KINDS, 2, ws=1, muts=2 if prop in ("C06", "C10", "C11", "C01") else 0)
+        cases, g = stage_gen_trees(run, QUICK_KINDS + (["bareint"] if prop == "C07" else []), 2, ws=1 if prop != "C07" else 0,
+                                   muts=2 if prop in ("C06", "C10", "C11", "C01") else 0)
         res, tr, s = stage_groups(run, cases, trace_every=25)
         if tr:
             stage_trace(run, tr, name="trace_trees")
